@@ -129,6 +129,43 @@ pub fn repair(toks: Vec<CTok>, sep: u8) -> Vec<CTok> {
     out
 }
 
+/// Shrinks a token list to at most `max` tokens by dropping blanks that sit next to another
+/// separator (" - " becomes "-"), then leading / trailing blanks. Value tokens are never dropped.
+pub fn fit(mut toks: Vec<CTok>, max: usize) -> Vec<CTok> {
+    let is_sep = |t: &Tok| matches!(t, Tok::Blank(_) | Tok::Punct(_) | Tok::T);
+    let mut guard = 0;
+    while toks.len() > max && guard < 200 {
+        guard += 1;
+        // a blank adjacent to a punctuation token
+        let mut hit = None;
+        for i in 0..toks.len() {
+            if matches!(toks[i].0, Tok::Blank(_)) {
+                let prev_p = i > 0 && matches!(toks[i - 1].0, Tok::Punct(_));
+                let next_p = i + 1 < toks.len() && matches!(toks[i + 1].0, Tok::Punct(_));
+                if prev_p || next_p {
+                    hit = Some(i);
+                    break;
+                }
+            }
+        }
+        if hit.is_none() {
+            if matches!(toks.first().map(|t| &t.0), Some(Tok::Blank(_))) {
+                hit = Some(0);
+            } else if matches!(toks.last().map(|t| &t.0), Some(Tok::Blank(_))) {
+                hit = Some(toks.len() - 1);
+            }
+        }
+        match hit {
+            Some(i) => {
+                toks.remove(i);
+            }
+            None => break,
+        }
+    }
+    let _ = is_sep;
+    repair(toks, b'/')
+}
+
 const STYLES: [Style; 4] = [Style::Upper, Style::Capital, Style::Lower, Style::Unspec];
 const MERS: [MerCase; 3] = [MerCase::Upper, MerCase::Lower, MerCase::Mixed];
 pub const PUNCT: [u8; 7] = [b'-', b':', b'/', b'\\', b',', b'.', b';'];
